@@ -97,7 +97,8 @@ def handle (j : Json) : Json :=
     (if st.foreign then ["foreign.base"] else []) ++
     (if st.log.length > 2 then ["reads.many"] else []) ++
     (if (cacheFilter inp [] st.log).length < st.log.length then ["cache.hit"] else []) ++
-    (if inp.allowed then ["switch.on"] else [])
+    (if inp.allowed then ["switch.on"] else []) ++
+    (if decide (Uniform inp) then ["universe.uniform"] else [])
   -- candidate documents of the spec: the root and every stored location
   let cands : List (Option Url) := inp.root :: inp.store.map (fun e => some e.1)
   let edges := specEdges inp cands
@@ -106,7 +107,7 @@ def handle (j : Json) : Json :=
                     ("cacheLog", jstrs ((cacheFilter inp [] st.log).map renderUrl))]),
     ("spec", jobj [("allowed", Json.bool inp.allowed), ("root", optUrl inp.root),
                    ("edges", Json.arr (edges.map (fun e => Json.arr #[optUrl e.1, Json.str (renderUrl e.2)])).toArray),
-                   ("modelOK", Json.bool (specB inp st.log))]),
+                   ("modelOK", Json.bool (specB inp st.log)), ("uniform", Json.bool (decide (Uniform inp)))]),
     ("excl", jstrs (if st.foreign then ["ForeignBase"] else [])),
     ("branches", jstrs branches)]
 
